@@ -19,6 +19,9 @@ import (
 
 const modPath = "github.com/russellhaering/gosaml2"
 
+// controlsDir: virtual directory (overlay only) that holds the positive controls inside the analysed module.
+const controlsDir = "zz_verif_controls"
+
 type Prog struct {
 	Repo    string
 	Config  string // build configuration label
@@ -31,11 +34,13 @@ type Prog struct {
 	Types   *ssa.Package
 	UUID    *ssa.Package
 	LibFns  []*ssa.Function // all source functions (incl. closures, methods) of library scope
+	Ctl     map[string][]*ssa.Function // positive-control packages by name
 	DepVers map[string]string
 	fnIndex map[string]*ssa.Function
 }
 
 type LoadOpts struct {
+	Controls string // directory with positive-control packages (overlaid into the module, never written to /repo)
 	Repo   string
 	Tags   string
 	GOOS   string
@@ -68,7 +73,28 @@ func Load(o LoadOpts) (*Prog, error) {
 	if o.Tags != "" {
 		cfg.BuildFlags = []string{"-tags=" + o.Tags}
 	}
-	pkgs, err := packages.Load(cfg, "./...")
+	patterns := []string{"./..."}
+	if o.Controls != "" {
+		cfg.Overlay = map[string][]byte{}
+		ents, _ := os.ReadDir(o.Controls)
+		for _, e := range ents {
+			if !e.IsDir() {
+				continue
+			}
+			files, _ := filepath.Glob(filepath.Join(o.Controls, e.Name(), "*.go"))
+			for _, f := range files {
+				b, err := os.ReadFile(f)
+				if err != nil {
+					continue
+				}
+				cfg.Overlay[filepath.Join(o.Repo, controlsDir, e.Name(), filepath.Base(f))] = b
+			}
+			if len(files) > 0 {
+				patterns = append(patterns, "./"+controlsDir+"/"+e.Name())
+			}
+		}
+	}
+	pkgs, err := packages.Load(cfg, patterns...)
 	if err != nil {
 		return nil, fmt.Errorf("load: %v", err)
 	}
@@ -138,6 +164,14 @@ func Load(o LoadOpts) (*Prog, error) {
 	}
 	for _, f := range p.LibFns {
 		p.fnIndex[f.String()] = f
+	}
+	p.Ctl = map[string][]*ssa.Function{}
+	for path, pk := range p.ByPath {
+		if strings.HasPrefix(path, modPath+"/"+controlsDir+"/") {
+			if sp := prog.Package(pk.Types); sp != nil {
+				p.Ctl[strings.TrimPrefix(path, modPath+"/"+controlsDir+"/")] = pkgFunctions(sp)
+			}
+		}
 	}
 	return p, nil
 }
